@@ -70,6 +70,8 @@ class SeqV:
         self.esort = esort      # 'int' | 'val'
         self.canon = canon      # sorted & unique => determined by its element set
         self.term = term        # identity term if the sequence came from an opaque value
+        self.filt = None        # filter sequences: dict(n, keep, src, pos) (core.make_filter)
+        self.blocks = None      # concatenation of varying-length blocks: dict(n, off, blen, block, n0)
         self.birth = next(_counter)
 
     @property
@@ -83,7 +85,7 @@ class SeqV:
 
     def become(self, other):
         """in-place replacement (mutation of a list object)"""
-        for a in ('items', 'length', 'elem', 'mem', 'inv', 'esort', 'canon', 'term'):
+        for a in ('items', 'length', 'elem', 'mem', 'inv', 'esort', 'canon', 'term', 'filt', 'blocks'):
             setattr(self, a, getattr(other, a))
 
     def __repr__(self):
